@@ -14,6 +14,17 @@ import signal
 from multiprocessing.connection import wait
 
 
+RSS_LIMIT_MB = float(os.environ.get("VERIF_WORKER_RSS_MB", "1200"))
+
+
+def _rss_mb():
+    try:
+        with open("/proc/self/statm") as f:
+            return int(f.read().split()[1]) * os.sysconf("SC_PAGE_SIZE") / 1e6
+    except Exception:
+        return 0.0
+
+
 def _loop(conn, fn, init):
     if init:
         init()
@@ -25,9 +36,17 @@ def _loop(conn, fn, init):
         if msg is None:
             break
         i, key = msg
+        # Every texture update leaks ~30 kB of native memory (scipy's LSODA; measured on
+        # plain pydrex usage), i.e. gigabytes over 1e5 updates: a worker whose resident set
+        # has grown past the limit retires after the current case and is replaced.
+        retire = False
         try:
-            conn.send((i, fn(key)))
+            r = fn(key)
+            retire = _rss_mb() > RSS_LIMIT_MB
+            conn.send((i, r, retire))
         except BrokenPipeError:
+            break
+        if retire:
             break
     os._exit(0)
 
@@ -94,7 +113,15 @@ def imap_unordered(fn, keys, jobs, init=None, per_key_timeout=None):
                 got = None
             if got is not None:
                 done += 1
-                yield got
+                yield got[0], got[1]
+                if got[2]:  # the worker retires (memory): replace it
+                    p.join(timeout=10)
+                    if p.is_alive():
+                        p.kill()
+                    del live[c]
+                    if nxt < n:
+                        feed(spawn())
+                    continue
                 if not feed(c):
                     try:
                         c.send(None)
